@@ -75,6 +75,29 @@ CHECKS.update({
         design_ref='DESIGN.md §3.2, §4 C19', note=META_NOTE),
 })
 
+
+CHECKS.update({
+    'C01': dict(
+        technique='Meta.tla SaveLoad = LoadBuild(SavedRows) (relational join of the written values) with the action property '
+                  'SaveLoadIdentity model-checked on seven shapes; tours with a SaveLoad at every state and value-heavy random '
+                  'histories replayed through eight serialisation and four loading routes; reloaded model validated by TLC',
+        text='The specification defines what a reload yields for every state (not only persistable ones) and TLC proves on the '
+             'bounded models that this is the identity on the persistable domain; the real serialise/persist + load round trip '
+             'is executed at every state of the tours and after random histories with the value classes of the quantifier, and '
+             'the reloaded schema, pools, values, links and the text fixed point are compared with the specification.',
+        design_ref='DESIGN.md §3.3, §4 C01', note=META_NOTE + '; the concrete representative chosen for each value class'),
+    'C03': dict(
+        technique='Meta.tla LoadBuild (relational join of rows) with invariant PermutationInvariant and action property LoadIsJoin '
+                  'model-checked over all populations of <= 3/4 rows from 5-7 row choices per shape; every population rendered '
+                  'as SQL and loaded through four routes with varying statement order and partition; creation through '
+                  'new()/clone() validated against Meta!NewRow',
+        text='Every small population, including all statement orders, is an action instance of the model and is loaded by the real '
+             'loader; larger random populations cover null, duplicate, dangling keys and shared referential attributes. The '
+             'API route is specified as the same join restricted to existing referred instances, so the equality of both routes '
+             'is decided by the same relational definition.',
+        design_ref='DESIGN.md §3.3, §4 C03', note=META_NOTE + '; the SQL renderer vt/adapters/_sql.py'),
+})
+
 NOT_YET = {}
 
 
